@@ -42,13 +42,16 @@ CLAIMED = {
    note="Interleaving granularity is the API step; thread-level races inside one call are runtime behaviour outside the model. ID-token signing failure path not exercised.",
    technique="Lean 4 proof: history invariant by induction + decision-logic theorems; exhaustive schedule enumeration for the correspondence", ref="6 C02"),
  "C05": dict(
-   text="Lean theorems (decision logic) on the provider core model: the grant records request scope filtered by the client's allowed scopes; an "
-        "authorization stores a code carrying exactly that scope; find_scope stays inside the grant's scope; a refresh with an explicit scope "
-        "delivers only if the scope is within the find_scope bound and states exactly that scope. The history invariant scope(token) within "
-        "scope(grant) is checked after every step on every stored token by correspondence and by an independent oracle (together with the "
-        "three-view agreement response/JWT/introspection); its inductive proof is not finished — claimed as partial.",
-   note="PARTIAL: the all-histories invariant is tied by correspondence + oracle, not yet proved; token exchange, client-credentials and password grants not modelled.",
-   technique="Lean 4 proof of the decision logic + model/implementation correspondence on histories with per-step scope projection", ref="6 C05"),
+   text="Lean theorems on the provider core model. History invariant, by induction over ALL API-step histories (authorize, code redemption with "
+        "parse/process interleaved, refresh with or without explicit scope, revocations, logouts, removals, clock): every token the provider "
+        "holds, however long its minting chain, carries a scope within the scope recorded for its own grant (scope_bounded), minting chains "
+        "never leave their grant (chains_stay_in_grant), and what introspection reports is within the grant's scope "
+        "(introspection_scope_bounded); decision logic: the grant records the request scope filtered by the client's allowed scopes, an "
+        "authorization stores a code with exactly that scope, a refresh with an explicit scope delivers only within the find_scope bound and "
+        "states exactly that scope. Tie: histories against the real provider with per-step scope projection of every stored token; oracle: "
+        "scope(token) within scope(grant) and the three views response / JWT / introspection agree.",
+   note="Token exchange, client-credentials and password grants are not in the provider core model (their scope handling is covered by the oracle only where the histories reach them).",
+   technique="Lean 4 proof (invariant by induction over operation histories + decision logic) + model/implementation correspondence on histories", ref="6 C05"),
  "C10": dict(
    text="Lean theorems, generic in the schema and unbounded in message size: dict/JSON round trip and form-encoding round trip (equal up to the "
         "textual rendering of integers and booleans) for every message valid for its schema; percent-decoding inverts percent-encoding on every "
